@@ -873,6 +873,9 @@ def _mark_of(lib, sup, node, op, depth=0):
                         marks |= {st[1] for st in t3.steps if st[0] == "field" and st[1] in ("start_mark", "end_mark")}
             if len(marks) == 1:
                 return marks.pop()
+            if marks == {"start_mark", "end_mark"}:
+                # an accessor that answers with one or the other depending on the event
+                return "either"
     return None
 
 
@@ -890,7 +893,8 @@ def r03_5(ctx):
     cr_adt = crs[0].raw.get("impl_self_adt")
     WANT = {"YAML_DOCUMENT_START_EVENT": "start_mark", "YAML_DOCUMENT_END_EVENT": "end_mark"}
     n = 0
-    for ev, want in sorted(WANT.items()):
+    start_cuts = []
+    for ev, want in sorted(WANT.items(), reverse=True):
         reach = set()
         for sn, lab, dst in edges.get(ev, []):
             reach |= set(sup.reachable_from(dst, removed_nodes=polls))
@@ -901,10 +905,22 @@ def r03_5(ctx):
             if nn in reach and callee is not None and callee.raw.get("impl_self_adt") == cr_adt and len(t["args"]) == 2 and sup.body_of(nn).raw.get("impl_self_adt") != cr_adt and callee.local_ty(2) == "u64":
                 cuts.append((nn, t))
         ctx.ob(f"cut-site:{ev}", len(cuts) >= 1, sup.site(edges[ev][0][0]) if ev in edges else site(ch["loop"]), f"{len(cuts)} offset-taking call(s) on the chunk reader after a {ev}")
+        if ev == "YAML_DOCUMENT_START_EVENT":
+            start_cuts = [nn for nn, _ in cuts]
         for nn, t in cuts:
             n += 1
             got = _mark_of(lib, sup, nn, t["args"][1])
-            ctx.ob(f"cut-mark:{ev}:{(fn_of(t) or {}).get('name')}", got == want, sup.site(nn), f"offset is the event's {want}" if got == want else f"offset comes from {got or 'something other than an event mark'}, expected the event's {want}: documents are cut at the wrong byte")
+            ok_m = got == want
+            det_m = f"offset is the event's {want}"
+            if not ok_m and ev == "YAML_DOCUMENT_END_EVENT" and got in ("start_mark", "either"):
+                # ending the chunk where the DOCUMENT_END event starts leaves an explicit `...` terminator in the
+                # buffer: harmless exactly when every DOCUMENT_START trims up to its own start before anything else
+                # happens to the buffer (the terminator is then dropped, never glued onto the next chunk)
+                always_trimmed = bool(start_cuts) and all(sup.must_pass(dst, polls + sup.exits(), start_cuts) for _, _, dst in edges.get("YAML_DOCUMENT_START_EVENT", []))
+                ok_m = always_trimmed
+                det_m = "chunk ends at the start of the DOCUMENT_END event (the `...` terminator stays behind); every DOCUMENT_START trims it away before returning or polling again" if ok_m else \
+                    "chunk ends at the start of the DOCUMENT_END event, but a DOCUMENT_START can return or poll again without trimming: a left-over `...` terminator becomes the first line of the next chunk"
+            ctx.ob(f"cut-mark:{ev}:{(fn_of(t) or {}).get('name')}", ok_m, sup.site(nn), det_m if ok_m or got in ("start_mark", "either") else f"offset comes from {got or 'something other than an event mark'}, expected the event's {want}: documents are cut at the wrong byte")
     ctx.ob("cut-sites", n >= 2, site(ch["loop"]), f"{n} cut(s) examined")
 
 
